@@ -8,7 +8,7 @@ from . import c04
 
 NBATCH = {'quick': 16, 'thorough': 64}
 BUDGET_S = {'quick': 80, 'thorough': 180}
-PER_BATCH = {'quick': 30, 'thorough': 450}
+PER_BATCH = {'quick': 90, 'thorough': 1500}
 FLOORS = {
     'quick': {'distinct_nontrivial': 800, 'feature:ambiguous': 700, 'feature:cyclic-grammar-walked': 100,
               'feature:on_cycle-reported': 30, 'feature:single-derivation': 500, 'judged:basic': 400,
@@ -188,8 +188,11 @@ def run_case(ctx, G, text, l, rgL, cyclic, lexer, w, family, walkers):
                                      {'ref': len(ref), 'got': len(got), 'missing': sorted(ref - got, key=repr)[:2], 'extra': sorted(got - ref, key=repr)[:2]}))
             except R.TooMany:
                 ctx.count('skipped-too-many-expansions')
-        if t_one is not None and R.freeze(canon_tree(t_one[1])) not in ref:
-            problems.append(('resolve-not-a-derivation', canon_tree(t_one[1])))
+        try:
+            if t_one is not None and R.freeze(canon_tree(t_one[1])) not in ref:
+                problems.append(('resolve-not-a-derivation', canon_tree(t_one[1])))
+        except R.TooMany:
+            ctx.count('skipped-too-many-expansions')
         if nd == 1 and getattr(root, 'is_ambiguous', False):
             problems.append(('is_ambiguous-on-single-derivation', None))
         if ocnt is not None:
@@ -249,6 +252,9 @@ def run_grammar(ctx, G, family, lexers, inputs):
         rgL = LarkRulesGrammar(l)
         cyclic = rgL.is_cyclic()
         for w in inputs:
+            if cyclic and len(w) > 3:
+                ctx.count('cyclic-input-too-long(not run)')      # see c04: exponential trees, budget must stay a termination criterion
+                continue
             run_case(ctx, G, text, l, rgL, cyclic, lexer, w, family, walkers)
     ctx.sample({'grammar': text, 'family': family, 'inputs': inputs[:5]})
 
